@@ -198,6 +198,8 @@ def fixed_specs():
 
 def run_case(case, col=None):
     b = case['b']
+    if col is not None:
+        col.begin(case)
     if case.get('T') is not None:
         specs = [('none', None, None), ('own', build.schema(case['T']), case['T'])]
         if case.get('T2') is not None:
